@@ -512,8 +512,8 @@ func gpkgPipe(e *env, nfeat, ntargets, pagesize int) {
 	}()
 	select {
 	case p := <-returned:
-		unmark()
 		if p != "" {
+			unmark()
 			r.count("gpkg-pipe", op, true)
 			r.violation(Violation{Oracle: "pipeline-returns", Op: op, Impl: "panic", Detail: p})
 			return
@@ -524,10 +524,14 @@ func gpkgPipe(e *env, nfeat, ntargets, pagesize int) {
 		r.violation(Violation{Oracle: "pipeline-returns", Op: op, Impl: "ProcessFeatures has not returned", Detail: fmt.Sprintf("after %d seconds; the goroutines of the pipeline are left behind", 60+nfeat/100)})
 		return
 	}
+	// the targets are closed as main.go closes them once ProcessFeatures has returned: a writer that is still at work then (the call returned
+	// too early) runs into the closed handle and ends the process with log.Fatal — the marker stays until here, so that case is reported
 	for _, tg := range tgs {
 		tg.Close()
 	}
 	source.Close()
+	time.Sleep(100 * time.Millisecond)
+	unmark()
 	r.count("gpkg-pipe", op, true)
 	for tm := 0; tm < ntargets; tm++ {
 		got, err := readBack(filepath.Join(dir, fmt.Sprintf("dst_%d.gpkg", tm)), "polys", t.gcol)
